@@ -1,6 +1,7 @@
 package c19
 
 import (
+	"bytes"
 	"errors"
 	"fmt"
 	"os"
@@ -71,6 +72,50 @@ type PlatDef struct {
 	NetOnClose bool      `json:"net_on_close,omitempty"`
 	Privs      int       `json:"privs"`
 	DDP        string    `json:"ddp,omitempty"`
+	// Variant: the definition also has a `variants:` block and the platform is built through
+	// platform.NewPlatformVariant with this variant selected.
+	Variant *PlatVariant `json:"variant,omitempty"`
+}
+
+// PlatVariant is what the selected variant states. A variant overrides the blocks it states
+// (mergeVariant: driver type, failed-when-contains, on-X, privilege levels, default desired
+// privilege level); whatever it does not state - the options block in particular - stays as the
+// default has it.
+type PlatVariant struct {
+	FailedWhen []string `json:"failed_when,omitempty"`
+	OnOpen     bool     `json:"on_open,omitempty"`
+	OnClose    bool     `json:"on_close,omitempty"`
+	NetOnOpen  bool     `json:"net_on_open,omitempty"`
+	NetOnClose bool     `json:"net_on_close,omitempty"`
+	HasPrivs   bool     `json:"has_privs,omitempty"`
+	Privs      int      `json:"privs,omitempty"`
+	DDP        string   `json:"ddp,omitempty"`
+	DriverType bool     `json:"driver_type,omitempty"` // restates the default's driver type
+}
+
+const variantName = "c19variant"
+
+// effective returns the definition the selected variant leaves (what mergeVariant documents).
+func (d *PlatDef) effective() *PlatDef {
+	if d == nil || d.Variant == nil {
+		return d
+	}
+	e := *d
+	v := d.Variant
+	if len(v.FailedWhen) > 0 {
+		e.FailedWhen = v.FailedWhen
+	}
+	e.OnOpen = e.OnOpen || v.OnOpen
+	e.OnClose = e.OnClose || v.OnClose
+	e.NetOnOpen = e.NetOnOpen || v.NetOnOpen
+	e.NetOnClose = e.NetOnClose || v.NetOnClose
+	if v.HasPrivs && len(privPool(v.Privs)) > 0 {
+		e.Privs = v.Privs
+	}
+	if v.DDP != "" {
+		e.DDP = v.DDP
+	}
+	return &e
 }
 
 // List is one option list for one constructor.
@@ -152,11 +197,10 @@ func (o PlatOpt) yamlValue() string {
 func platYAML(k string, d *PlatDef) []byte {
 	var b strings.Builder
 	b.WriteString("---\nplatform-type: 'c19_generated'\ndefault:\n")
-	if k == kPlatNet {
-		b.WriteString("  driver-type: 'network'\n")
-		m := privPool(d.Privs)
-		if len(m) > 0 { // Privs == 3: the definition has no privilege-levels key at all
-			b.WriteString("  privilege-levels:\n")
+	privs := func(ind string, k int) {
+		m := privPool(k)
+		if len(m) > 0 { // 3: no privilege-levels key at all
+			b.WriteString(ind + "privilege-levels:\n")
 		}
 		var names []string
 		for n := range m {
@@ -165,10 +209,14 @@ func platYAML(k string, d *PlatDef) []byte {
 		sort.Strings(names)
 		for _, n := range names {
 			p := m[n]
-			fmt.Fprintf(&b, "    %s:\n      name: %s\n      pattern: %s\n      not-contains: %s\n      previous-priv: %s\n"+
-				"      deescalate: %s\n      escalate: %s\n      escalate-auth: %v\n      escalate-prompt: %s\n",
+			fmt.Fprintf(&b, ind+"  %s:\n"+ind+"    name: %s\n"+ind+"    pattern: %s\n"+ind+"    not-contains: %s\n"+ind+"    previous-priv: %s\n"+
+				ind+"    deescalate: %s\n"+ind+"    escalate: %s\n"+ind+"    escalate-auth: %v\n"+ind+"    escalate-prompt: %s\n",
 				n, yq(p.Name), yq(p.Pattern), yList(p.NotContains), yq(p.PreviousPriv), yq(p.Deescalate), yq(p.Escalate), p.EscalateAuth, yq(p.EscalatePrompt))
 		}
+	}
+	if k == kPlatNet {
+		b.WriteString("  driver-type: 'network'\n")
+		privs("  ", d.Privs)
 		if d.DDP != "" { // empty: the key is missing
 			fmt.Fprintf(&b, "  default-desired-privilege-level: %s\n", yq(d.DDP))
 		}
@@ -206,6 +254,41 @@ func platYAML(k string, d *PlatDef) []byte {
 			fmt.Fprintf(&b, "    - option: %s\n      value: %s\n", o.Name, o.yamlValue())
 		}
 	}
+	if v := d.Variant; v != nil {
+		// a decoy that must not be picked, then the selected one
+		b.WriteString("variants:\n  decoy:\n    failed-when-contains:\n      - \"decoy\"\n    default-desired-privilege-level: \"decoy\"\n")
+		b.WriteString("  " + variantName + ":")
+		n := b.Len()
+		b.WriteString("\n")
+		if v.DriverType {
+			fmt.Fprintf(&b, "    driver-type: '%s'\n", map[bool]string{true: "network", false: "generic"}[k == kPlatNet])
+		}
+		if v.HasPrivs {
+			privs("    ", v.Privs)
+		}
+		if v.DDP != "" {
+			fmt.Fprintf(&b, "    default-desired-privilege-level: %s\n", yq(v.DDP))
+		}
+		if len(v.FailedWhen) > 0 {
+			b.WriteString("    failed-when-contains:\n")
+			for _, s := range v.FailedWhen {
+				fmt.Fprintf(&b, "      - %s\n", yq(s))
+			}
+		}
+		vx := func(on bool, name string) {
+			if on {
+				fmt.Fprintf(&b, "    %s:\n      - operation: 'channel.return'\n", name)
+			}
+		}
+		vx(v.OnOpen, "on-open")
+		vx(v.OnClose, "on-close")
+		vx(v.NetOnOpen, "network-on-open")
+		vx(v.NetOnClose, "network-on-close")
+		if b.Len() == n+1 { // the variant states nothing at all
+			out := strings.TrimSuffix(b.String(), "\n") + " {}\n"
+			return []byte(out)
+		}
+	}
 	return []byte(b.String())
 }
 
@@ -239,8 +322,12 @@ var platSpecs = []platSpec{
 	{"passphrase-pattern", "string", func(o PlatOpt) Opt { return Opt{N: "WithPassphrasePattern", S: o.S} }},
 	{"return-char", "string", func(o PlatOpt) Opt { return Opt{N: "WithReturnChar", S: o.S} }},
 	// "read delay in seconds", "timeouts in seconds"
-	{"read-delay", "float", func(o PlatOpt) Opt { return Opt{N: "WithReadDelay", D: int64(time.Duration(o.F * float64(time.Second)))} }},
-	{"timeout-ops", "float", func(o PlatOpt) Opt { return Opt{N: "WithTimeoutOps", D: int64(time.Duration(o.F * float64(time.Second)))} }},
+	{"read-delay", "float", func(o PlatOpt) Opt {
+		return Opt{N: "WithReadDelay", D: int64(time.Duration(o.F * float64(time.Second)))}
+	}},
+	{"timeout-ops", "float", func(o PlatOpt) Opt {
+		return Opt{N: "WithTimeoutOps", D: int64(time.Duration(o.F * float64(time.Second)))}
+	}},
 	{"transport-type", "string", func(o PlatOpt) Opt { return Opt{N: "WithTransportType", S: o.S} }},
 	{"read-size", "int", func(o PlatOpt) Opt { return Opt{N: "WithTransportReadSize", I: o.I} }},
 	{"transport-pty-height", "int", func(o PlatOpt) Opt { return Opt{N: "WithTermHeight", I: o.I} }},
@@ -359,7 +446,13 @@ func constructY(k string, y []byte, opts []util.Option) (b built) {
 		}
 		return built{drv: d}
 	case kPlatGen, kPlatNet:
-		p, err := platform.NewPlatform(y, hostName, opts...)
+		var p *platform.Platform
+		var err error
+		if bytes.Contains(y, []byte("\nvariants:\n")) { // the second door of the platform constructor
+			p, err = platform.NewPlatformVariant(y, variantName, hostName, opts...)
+		} else {
+			p, err = platform.NewPlatform(y, hostName, opts...)
+		}
 		if err != nil {
 			return built{err: err}
 		}
@@ -541,7 +634,7 @@ func expect(l List, p *pools) (*expectation, error) {
 		if pd == nil {
 			pd = &PlatDef{DDP: "exec"}
 		}
-		full = append(platToOpts(l.K, pd), l.Opts...)
+		full = append(platToOpts(l.K, pd.effective()), l.Opts...)
 	}
 	type assign struct {
 		obj, field string
@@ -854,6 +947,9 @@ func runList(l List) listResult {
 		}
 		if l.Hint != "" {
 			key = "c19/platform-option-mismatch:" + l.Hint
+			if l.Plat != nil && l.Plat.Variant != nil {
+				key = "c19/platform-variant-mismatch:" + l.Hint
+			}
 			if l.Disagree {
 				key = "c19/platform-option-value-ignored:" + l.Hint
 			}
@@ -884,6 +980,13 @@ func runList(l List) listResult {
 	if l.Plat != nil {
 		for _, po := range l.Plat.Options {
 			res.tags = append(res.tags, "platopt="+po.Name)
+		}
+		if l.Plat.Variant != nil {
+			res.tags = append(res.tags, "platform_door=NewPlatformVariant")
+			res.obs["platform_variant_lists"] = 1
+			if len(l.Plat.Options) > 0 {
+				res.obs["platform_variant_lists_with_default_options"] = 1
+			}
 		}
 	}
 	total := len(l.Opts)
